@@ -1703,9 +1703,7 @@ static bool execute(Plan &plan) {
                 break;
             default: drive<MemW>(plan, cx, executed); break;
         }
-        if (!qsim::run_aborted() && qsim::live_lib_blocks() != 0)
-            qsim::report("leak", std::string("seq:") + cx.sub, std::to_string(qsim::live_lib_blocks()) +
-                                                                   " library block(s) still allocated after every object was destroyed");
+        if (!qsim::run_aborted()) qsim::check_leaks("seq");
     });
     return executed >= 5;
 }
